@@ -127,20 +127,114 @@ func c01(c *Ctx) {
 	if exportSpans == nil {
 		c.Missing("R4", "sdk/trace.(*batchSpanProcessor).exportSpans")
 	}
+	isAppendSite := func(n ast.Node) bool {
+		rhs := assignRHS(n, isBatch)
+		return rhs != nil && isAppendTo(info, rhs, isBatch)
+	}
+	unlocks := func(x *GNode) bool {
+		if x.N == nil {
+			return false
+		}
+		if _, isDefer := x.N.(*ast.DeferStmt); isDefer {
+			return false // runs at function exit, not here
+		}
+		hit := false
+		inspectNoLit(x.N, func(n ast.Node) bool {
+			if call, ok := n.(*ast.CallExpr); ok {
+				if _, op := lockOp(info, call); op == "unlock" {
+					hit = true
+				}
+			}
+			return true
+		})
+		return hit
+	}
+	// helpers: a declared function that appends to batch and returns len(batch) read in the same critical section on every
+	// return. A call of such a helper is an append site whose value is the batch length (one level, static callees only).
+	helpers := map[*types.Func]*FuncInfo{}
+	for _, f := range ix.All {
+		if f.Lit != nil || f.Obj == nil {
+			continue
+		}
+		apps := nodesIn(f, isAppendSite)
+		if len(apps) != 1 {
+			continue
+		}
+		g := ix.FG(f)
+		a := g.NodeOf(apps[0])
+		okRet, nRet := true, 0
+		inspectNoLit(f.Body(), func(n ast.Node) bool {
+			rs, ok := n.(*ast.ReturnStmt)
+			if !ok {
+				return true
+			}
+			nRet++
+			if len(rs.Results) != 1 {
+				okRet = false
+				return true
+			}
+			r := unparen(rs.Results[0])
+			var readAt *GNode
+			if isLenOf(info, r, isBatch) {
+				readAt = g.NodeOf(rs)
+			} else if id, isID := r.(*ast.Ident); isID {
+				if def := g.LocalDef(info.Uses[id]); def != nil && isLenOf(info, unparen(def), isBatch) {
+					readAt = g.NodeOf(def)
+				}
+			}
+			if readAt == nil {
+				okRet = false
+				return true
+			}
+			// the read is reached from the append without a release in between
+			seen, _ := g.Reach([]*GNode{a}, func(x *GNode) bool { return x == readAt }, nil)
+			for x := range seen {
+				if unlocks(x) || x == g.Exit {
+					okRet = false
+				}
+			}
+			return true
+		})
+		if okRet && nRet > 0 {
+			helpers[f.Obj.Origin()] = f
+		}
+	}
+	isHelperCall := func(n ast.Node) bool {
+		call, ok := n.(*ast.CallExpr)
+		if !ok {
+			return false
+		}
+		cf := callee(info, call)
+		return cf != nil && helpers[cf.Origin()] != nil
+	}
 	for _, f := range ix.All {
 		g := (*FG)(nil)
-		for _, n := range nodesIn(f, func(n ast.Node) bool {
-			rhs := assignRHS(n, isBatch)
-			return rhs != nil && isAppendTo(info, rhs, isBatch)
-		}) {
+		for _, n := range nodesIn(f, func(n ast.Node) bool { return isAppendSite(n) || isHelperCall(n) }) {
 			if g == nil {
 				g = ix.FG(f)
 			}
 			c.Analysed(ix.Outer(f))
 			key := "sdk/trace|" + f.Name + "|append(batch) → size test → exportSpans"
 			site := at(ix.M, n.Pos())
+			if f.Obj != nil && f.Lit == nil && helpers[f.Obj.Origin()] == f && isAppendSite(n) {
+				c.OK("R4", key, site, "helper: returns len(batch) read in the critical section of the append; the size test is required at each call site")
+				continue
+			}
 			a := g.NodeOf(n)
-			// comparison vertices
+			// a value that is the batch length as read in the critical section of the append
+			var isLenVal func(e ast.Expr, depth int) bool
+			isLenVal = func(e ast.Expr, depth int) bool {
+				e = unparen(e)
+				if isLenOf(info, e, isBatch) || isHelperCall(e) {
+					return true
+				}
+				if id, ok := e.(*ast.Ident); ok && depth < 3 {
+					if def := g.LocalDef(info.Uses[id]); def != nil {
+						return isLenVal(def, depth+1)
+					}
+				}
+				return false
+			}
 			isCmp := func(e ast.Node) (ast.Expr, bool) {
 				be, ok := e.(*ast.BinaryExpr)
 				if !ok {
@@ -150,7 +244,7 @@ func c01(c *Ctx) {
 				if !ok {
 					return nil, false
 				}
-				isLen := func(e ast.Expr) bool { return isLenOf(info, e, isBatch) }
+				isLen := func(e ast.Expr) bool { return isLenVal(e, 0) }
 				isMax := func(e ast.Expr) bool { return isField(info, e, fMax) }
 				if isLen(l) && isMax(r) && (op == token.GEQ || op == token.EQL) {
 					return be, true
@@ -168,55 +262,53 @@ func c01(c *Ctx) {
 				}
 				return false
 			})
-			cs := map[*GNode]bool{}
-			for _, x := range cmps {
-				cs[x] = true
-			}
-			// every path from the append to exit or to a lock release passes the comparison
-			relOrExit := func(x *GNode) bool {
-				if x == g.Exit {
-					return true
+			cs := toSet(cmps)
+			// (1) the length is read before the critical section of the append ends
+			reads := toSet(g.Match(func(n ast.Node) bool {
+				e, ok := n.(ast.Expr)
+				return ok && (isLenOf(info, e, isBatch) || isHelperCall(e))
+			}))
+			bad := ""
+			if !isHelperCall(n) {
+				seen, parent := g.Reach([]*GNode{a}, func(x *GNode) bool { return reads[x] }, nil)
+				for x := range seen {
+					if (x == g.Exit || unlocks(x)) && !reads[x] {
+						bad = "the batch length is not read inside the critical section of the append: " + g.pathLines(parent, x)
+						break
+					}
 				}
+			}
+			// (2) every way on from the append to the next receive (or out) evaluates the size test
+			isRecvQ0 := func(x *GNode) bool {
 				if x.N == nil {
 					return false
 				}
 				hit := false
 				inspectNoLit(x.N, func(n ast.Node) bool {
-					if call, ok := n.(*ast.CallExpr); ok {
-						if _, op := lockOp(info, call); op == "unlock" {
-							hit = true
-						}
+					if isRecvFrom(n, isQueue) {
+						hit = true
 					}
 					return true
 				})
 				return hit
 			}
-			seen, parent := g.Reach([]*GNode{a}, func(x *GNode) bool { return cs[x] }, nil)
-			bad := ""
-			for x := range seen {
-				if relOrExit(x) && !cs[x] {
-					bad = g.pathLines(parent, x)
-					break
+			if bad == "" && !cs[a] {
+				seen, parent := g.Reach([]*GNode{a}, func(x *GNode) bool { return cs[x] }, nil)
+				for x := range seen {
+					if (x == g.Exit || isRecvQ0(x)) && !cs[x] {
+						bad = "no size test on the way: " + g.pathLines(parent, x)
+						break
+					}
 				}
 			}
 			if len(cs) == 0 || bad != "" {
-				c.Violation("R4", key, site, "append to batch is not followed, inside the critical section, by a comparison len(batch) >= / == MaxExportBatchSize (batch can outgrow the maximum) "+bad)
+				c.Violation("R4", key, site, "append to batch is not followed by a comparison of the batch length, read in the same critical section, with MaxExportBatchSize (>= or ==) (batch can outgrow the maximum) "+bad)
 				continue
-			}
-			// the outcome variable (or the comparison itself) guards exportSpans
-			var flagVar types.Object
-			for x := range cs {
-				if as, ok := x.N.(*ast.AssignStmt); ok && len(as.Lhs) == 1 && len(as.Rhs) == 1 && unparen(as.Rhs[0]) == cmpExpr {
-					flagVar = objOf(info, as.Lhs[0])
-				}
 			}
 			trueEdge := func(e *GEdge) bool {
 				return edgeImplies(e, func(cnd ast.Expr, pol int) bool {
 					if pol < 0 {
 						return false
-					}
-					if flagVar != nil && sameVar(info, cnd, flagVar) {
-						return true
 					}
 					_, ok := isCmp(cnd)
 					return ok
@@ -249,24 +341,11 @@ func c01(c *Ctx) {
 				})
 				return hit
 			}
-			isRecvQ := func(x *GNode) bool {
-				if x.N == nil {
-					return false
-				}
-				hit := false
-				inspectNoLit(x.N, func(n ast.Node) bool {
-					if isRecvFrom(n, isQueue) {
-						hit = true
-					}
-					return true
-				})
-				return hit
-			}
 			okAll := true
 			for _, e := range edges {
 				seen, parent := g.ReachFromEdge(e, isExportCall)
 				for x := range seen {
-					if x == g.Exit || isRecvQ(x) {
+					if x == g.Exit || isRecvQ0(x) {
 						c.Violation("R4", key, site, "batch full but a path takes the next span (or returns) without calling exportSpans: "+g.pathLines(parent, x))
 						okAll = false
 						break
@@ -274,7 +353,7 @@ func c01(c *Ctx) {
 				}
 			}
 			if okAll {
-				c.OK("R4", key, site, "size test "+exprStr(cmpExpr)+" in the critical section; its true outcome always reaches exportSpans first")
+				c.OK("R4", key, site, "size test "+exprStr(cmpExpr)+" on the length read in the critical section; its true outcome always reaches exportSpans first")
 			}
 		}
 	}
